@@ -614,6 +614,21 @@ impl IceTransportRunner {
     /// removes the transaction from `pending_transactions`.
     async fn run_keepalive_tick(inner: &Arc<IceTransportInner>) -> Option<BoxFuture<'static, ()>> {
         let state = *inner.state.borrow();
+        // Connectivity checks that find no working pair deliberately leave the
+        // transport in `Checking` (trickled candidates may still arrive). That
+        // must not last forever: without any packet from the peer for
+        // `ice_connection_timeout` since checking started, the transport fails.
+        if state == IceTransportState::Checking
+            && inner.config.transport_mode == crate::TransportMode::WebRtc
+        {
+            let last_nanos = inner.last_received_nanos.load(Ordering::Relaxed);
+            let now_nanos = inner.created_at.elapsed().as_nanos() as u64;
+            let elapsed = Duration::from_nanos(now_nanos.saturating_sub(last_nanos));
+            if elapsed > inner.config.ice_connection_timeout {
+                let _ = inner.state.send(IceTransportState::Failed);
+            }
+            return None;
+        }
         if state == IceTransportState::Connected || state == IceTransportState::Disconnected {
             if inner.config.transport_mode == crate::TransportMode::WebRtc {
                 let last_nanos = inner.last_received_nanos.load(Ordering::Relaxed);
@@ -1133,6 +1148,11 @@ impl IceTransport {
         {
             return Ok(());
         }
+        // Reference point for the "never connected" timeout in the runner's tick.
+        self.inner.last_received_nanos.store(
+            self.inner.created_at.elapsed().as_nanos() as u64,
+            Ordering::Relaxed,
+        );
         if let Err(e) = self.inner.state.send(IceTransportState::Checking) {
             debug!("start: failed to set state to Checking: {}", e);
         }
